@@ -174,7 +174,9 @@ CHECKS = {
              "segment, with g0 != 1 and g0^r = 1. This contains bilinearity in both slots, identity in either slot, "
              "representation independence (projective inputs), and multi-pairings (lengths 0..4, identities at arbitrary "
              "positions) for the optimal ate (pc_map / pp_map_oatep_k12 / sim), Tate and Weil variants on BN-P256 and SM9-P256 "
-             "(thorough: BLS12-381). Scalars: 0, 1, 2, 3, -1, -2, r, r+-1, r-2, 2r, small and full-size random.",
+             "(thorough: BLS12-381). Scalars: 0, 1, 2, 3, -1, -2, r, r+-1, r-2, 2r, small and full-size random. The final "
+             "exponentiation is also judged as a function of its own on arbitrary elements of F_p12 (pp_exp_k12 out of place, in "
+             "place, through pc_exp): same value, multiplicative, image non-trivial and of order dividing r.",
         ref="§4 C04",
         note=_NOTE + " Equality with a textbook Miller-loop value is not claimed (the property does not ask for it). The k = 8/16/18/24/48 families are not built.",
         technique="TLC trace validation of recorded pairing evaluations against the bilinear relation over ghost logarithms (Tower/CurveX arithmetic)"),
